@@ -9,7 +9,7 @@
    workers, m independent controllers (disk watcher, WARC-queue watcher, operator, ...), nothing
    paused.  "For all orders of pause / resume / worker-exit / stop invocations, any number of
    workers, every schedule" = for all n, m and all label lists. *)
-From ZenoV Require Import Pause.PauseLts Pause.PauseBase Pause.PauseProofs.
+From ZenoV Require Import Pause.PauseLts Pause.PauseBase Pause.PauseProofs Pause.PauseAll.
 
 (* No caller and no worker can be left blocked forever.  From every reachable state: system steps
    (everything except new invocations and work items) stop after at most [mu s] steps; whenever
@@ -133,3 +133,30 @@ Theorem C14_sequential_resume_refuted :
   seq_resume_fixed_ok = true.
 Proof. exact sequential_resume_refuted. Qed.
 Print Assumptions C14_sequential_resume_refuted.
+
+(* The subscribers of the manager are the stage workers: the population is fixed, every worker
+   whose context is not cancelled holds a subscription of its own, and once nothing moves the
+   number of subscribers equals the number of such workers (with WorkersCount = w and no stop:
+   w per stage). *)
+Theorem C14_subscribers_are_live_workers : forall n m ls s,
+  run fixed (init n m) ls = Some s ->
+  nw s = n /\
+  (forall w, w < nw s -> w_stop (wk s w) = false -> w_sub (wk s w) = true) /\
+  (quiescent fixed s -> nsubs s = nlive s).
+Proof. exact subscribers_are_live_workers_lemma. Qed.
+Print Assumptions C14_subscribers_are_live_workers.
+
+(* Pause stops ALL workers: once nothing moves while the manager is paused, every live worker is
+   in the acknowledging send, and over every continuation without a new Resume invocation -
+   whatever work is offered, whatever else is invoked - the manager stays paused and NO worker
+   takes an item; once nothing moves while it is not paused, every live worker takes offered work. *)
+Theorem C14_pause_stops_every_worker : forall n m ls0 s,
+  run fixed (init n m) ls0 = Some s -> quiescent fixed s ->
+  (paused s = true ->
+     (forall w, w < nw s -> w_stop (wk s w) = false -> w_pc (wk s w) = WAck) /\
+     forall ls s', run fixed s ls = Some s' -> no_resume_call ls ->
+                   paused s' = true /\ forall w, ~ In (LWork w) ls) /\
+  (paused s = false ->
+     forall w, w < nw s -> w_stop (wk s w) = false -> step fixed s (LWork w) <> None).
+Proof. exact pause_stops_every_worker_lemma. Qed.
+Print Assumptions C14_pause_stops_every_worker.
